@@ -226,6 +226,15 @@ fn on_enum(inp: &mut syn::DeriveInput) -> syn::Result<proc_macro2::TokenStream> 
 
     let tag = decode_tag(&enum_attrs);
 
+    // An unknown variant of an optional field is recovered from by skipping the variant's
+    // value. An index-only enum has no value after its index, so the index itself is what
+    // needs to be skipped and we move back to it before reporting the error.
+    let rewind = if index_only {
+        quote!(__d777.set_position(__p778);)
+    } else {
+        quote!()
+    };
+
     Ok(quote! {
         impl #impl_generics minicbor::Decode<'bytes, Ctx> for #name #typ_generics #where_clause {
             fn decode(__d777: &mut minicbor::Decoder<'bytes>, __ctx777: &mut Ctx) -> core::result::Result<#name #typ_generics, minicbor::decode::Error> {
@@ -233,7 +242,10 @@ fn on_enum(inp: &mut syn::DeriveInput) -> syn::Result<proc_macro2::TokenStream> 
                 #check
                 match __d777.u32()? {
                     #(#rows)*
-                    n => Err(minicbor::decode::Error::unknown_variant(n).at(__p778))
+                    n => {
+                        #rewind
+                        Err(minicbor::decode::Error::unknown_variant(n).at(__p778))
+                    }
                 }
             }
         }
